@@ -83,9 +83,10 @@ def one(recipe):
 
 def load():
     recipes = []
-    mj = os.path.join(HERE, "mutants.json")
-    if os.path.isfile(mj):
-        recipes += json.load(open(mj))
+    for name in ("mutants.json", "reverts.json"):
+        mj = os.path.join(HERE, name)
+        if os.path.isfile(mj):
+            recipes += json.load(open(mj))
     seeded = os.path.join(VERIF, "seeded")
     if os.path.isdir(seeded):
         for d in sorted(os.listdir(seeded)):
